@@ -92,7 +92,7 @@ class Program:
         return getattr(importlib.import_module(mod), e.name)
 
     # ------------------------------------------------------------ value generation
-    STR_ALPHA = ["a", "Z", " ", "~", "y", "ÿ", "€", "Ÿ", "Ā", "\U0001F600", "\x00", "!", "é"]
+    STR_ALPHA = ["a", "Z", " ", "~", "y", "ÿ", "€", "Ÿ", "Ā", "\U0001F600", "\x00", "!", "é", "\x81", "\x85", "\x9f"]
 
     def gen_string(self, rng, n=None, safe=False, ff_ok=False):
         if n is None:
